@@ -12,7 +12,7 @@
     `rebind` indices.
   * `LOut` / `DOut` — state after the step and `Except Err Val` (result or error *class*).
 -/
-import PgProofs.ContainerMain
+import PgProofs.ContainerConv
 namespace Pg.C02
 
 /-! ## Histories -/
@@ -84,6 +84,40 @@ theorem C02_list_final (xs : List Val) (ops : List LStep) (hg : Good xs)
     simp only [admissibleHistL, Bool.and_eq_true] at ha
     simp only [runL, step_list xs s hg ha.1]
     exact ih _ (specL_good xs s hg ha.1) ha.2
+
+/-! ### Arbitrary arguments (nested `MISSING` included): extension 4 made explicit
+
+`convStep` replaces every *stored* argument by its symbolic form `conv v` (what `base.from_json`
+makes of a plain value: nested containers become symbolic, and their constructors drop nested
+`MISSING`). With it the `missingFree` restriction on arguments disappears; what remains excluded is
+finding F03 (`admissibleConvL`). -/
+
+def admissibleHistConvL : List Val → List LStep → Bool
+  | _, [] => true
+  | xs, s :: rest => admissibleConvL xs s && admissibleHistConvL (specL xs (convStep s)).st rest
+
+/-- One step, *every* argument value: `pg.List` does what the Python list does with the converted
+arguments (contents, order, result, error class). -/
+theorem C02_list_refines_conv (xs : List Val) (st : LStep) (hg : Good xs)
+    (ha : admissibleConvL xs st = true) : implL xs st = specL xs (convStep st) := by
+  rw [← implL_conv]
+  exact step_list xs _ hg (admissible_of_conv ha)
+
+theorem C02_list_invariant_conv (xs : List Val) (st : LStep) (hg : Good xs)
+    (ha : admissibleConvL xs st = true) : Good (specL xs (convStep st)).st :=
+  specL_good xs _ hg (admissible_of_conv ha)
+
+/-- All histories with arbitrary arguments. -/
+theorem C02_list_history_conv (xs : List Val) (ops : List LStep) (hg : Good xs)
+    (ha : admissibleHistConvL xs ops = true) :
+    traceL implL xs ops = traceL specL xs (ops.map convStep) := by
+  induction ops generalizing xs with
+  | nil => rfl
+  | cons s rest ih =>
+    simp only [admissibleHistConvL, Bool.and_eq_true] at ha
+    have hs := C02_list_refines_conv xs s hg ha.1
+    simp only [traceL, List.map_cons, hs]
+    rw [ih _ (C02_list_invariant_conv xs s hg ha.1) ha.2]
 
 /-! ### Read-back after any history (each is Python's own function on the reference contents) -/
 
@@ -244,6 +278,28 @@ theorem C02_dict_readback (kvs : List (Key × Val)) (ops : List DStep) (hg : Goo
   simp only [h1]
   exact ⟨trivial, rfl, rfl, rfl, rfl⟩
 
+def admissibleHistConvD : List (Key × Val) → List DStep → Bool
+  | _, [] => true
+  | kvs, s :: rest => admissibleConvD s && admissibleHistConvD (specD kvs (convStepD s)).st rest
+
+/-- One dict step with arbitrary stored values (only `setdefault`, which returns its plain argument,
+keeps the restriction): `pg.Dict` does what the Python dict does with the converted values. -/
+theorem C02_dict_refines_conv (kvs : List (Key × Val)) (st : DStep) (hg : GoodD kvs)
+    (ha : admissibleConvD st = true) : implD kvs st = specD kvs (convStepD st) := by
+  rw [← implD_conv]
+  exact step_dict kvs _ hg (admissibleD_conv ha)
+
+theorem C02_dict_history_conv (kvs : List (Key × Val)) (ops : List DStep) (hg : GoodD kvs)
+    (ha : admissibleHistConvD kvs ops = true) :
+    traceD implD kvs ops = traceD specD kvs (ops.map convStepD) := by
+  induction ops generalizing kvs with
+  | nil => rfl
+  | cons s rest ih =>
+    simp only [admissibleHistConvD, Bool.and_eq_true] at ha
+    have hs := C02_dict_refines_conv kvs s hg ha.1
+    simp only [traceD, List.map_cons, hs]
+    rw [ih _ (specD_good kvs _ hg (admissibleD_conv ha.1)) ha.2]
+
 /-- Nested `MISSING` in a dict value: `d['x'] = {'a': MISSING}` stores `{}`. -/
 theorem C02_dict_counterexample_nested_missing : ¬ C02_dict_refines_Full := by
   intro h
@@ -277,6 +333,18 @@ example : (runL implL (ints [1, 2, 3, 4, 5])
 example : admissibleHistD [(.s "a", .int 1)]
     [⟨.set (.s "a") .missing, true⟩, ⟨.update [(.s "a.b", .int 1), (.i 3, .list [])], false⟩,
      ⟨.setdefault (.s "z") .none, true⟩, ⟨.popitem, true⟩] = true := by decide
+
+/-- arbitrary arguments: nested `MISSING` is admissible for the `conv` theorems; pg stores `[1]` and `{}` -/
+example : admissibleHistConvL []
+    [⟨.append (.list [.missing, .int 1]), true⟩, ⟨.extend [.dict [(.s "a", .missing)]], false⟩] = true := by decide
+example : (runL implL []
+    [⟨.append (.list [.missing, .int 1]), true⟩, ⟨.extend [.dict [(.s "a", .missing)]], false⟩]).map innerLen
+    = [1, 0] := by decide
+
+/-- a stable descending sort keeps equal-but-distinguishable items in their original order -/
+example : pySort [.int 3, .float 1, .int 1, .bool true, .int 2] true .none
+    = .ok [.int 3, .int 2, .float 1, .int 1, .bool true] := by rfl
+example : (specD [(.i 1, .str "a")] ⟨.set (.b true) (.str "b"), true⟩).st = [(.i 1, .str "b")] := by rfl
 
 example : sliceIndices ⟨none, none, some (-1)⟩ 4 = .ok (3, -1, -1) := by decide
 example : pyRange 3 (-1) (-1) = [3, 2, 1, 0] := by decide
